@@ -5,6 +5,10 @@ HERE = os.path.dirname(os.path.dirname(os.path.abspath(__file__)))
 ALL = ['C%02d' % i for i in range(1, 21)]
 
 CHECKS = {
+ 'C17': dict(cat='model_checking', engine='gen+encode',
+   text='The real generator is built and run on a scratch copy of the current tree; the C fragment it emits for the dissectors (parser.txt) is parsed and interpreted symbolically (vf/wsh.py) over the canonical encoding of every Vanilla world message and every login message version, one encoding per covered shape with all field values symbolic. Integers the dissector reads are z3 terms; every if/else-if condition and loop bound must be decided by the shape constraints (solver implication: the dissector branches exactly as the definition), every read must start at a field boundary with the field width and endianness, string/packed-guid/mask helpers must meet a field of their type, and the cursor must equal the body length at the final break. hf_ fields, variables and enumerators referenced must be declared/registered in the sibling fragments.',
+   note='The fragment is interpreted, not compiled into Wireshark: the C subset the printer emits is modelled (32-bit unsigned variables, ==, !=, &, ||, <, for/while/switch); the hand-written helper functions are taken to consume one value of their type. Shapes as C01 (counts/lengths <= 2/3, cap 8 quick / 60 thorough per message). Messages with compressed payloads or UpdateMask members are outside (listed as inconclusive in the evidence).',
+   technique='run of the real generator + symbolic interpretation of the emitted C fragment over z3-encoded canonical messages', ref='DESIGN.md 4/C17'),
  'C18': dict(cat='translation_validation', engine='gen+encode',
    text='The real generator is built and run on a scratch copy of the current tree. Every wowm text it embeds (sections of the documentation pages linked from SUMMARY.md, doc comments of the generated Rust files) is parsed back with the independent wowm reader and compared with the source object at the file:line it cites: (a) syntax-tree equality (name, kind, opcode, base type, enumerators/values, member order, types, upcasts, array sizes, constants, conditions); (b) z3: per container of a supported version view and covered shape the encoder built from the documented text and the one built from the source produce the same bytes and validity predicate for all field values; (c) body tables: rows == members in order, sizes of fixed-size members == wire sizes; examples: annotated byte groups concatenate to a test vector of the source object, annotations follow definition order; every non-test source object is documented somewhere.',
    note='Only (b) is a solver claim (bounded by the covered shapes, cap 4 quick / 24 thorough; pages in quick, pages + Rust comments in thorough); (a) and (c) are deterministic comparisons. By design of the doc printer containers with nested if statements have no body table and compressed examples show the decompressed payload: counted, not compared. Comments/descriptions/links are outside.',
